@@ -39,7 +39,12 @@ class JSONCookie(SecureCookie):
         string = string.strip('"')  # this line is for a bug in werkzeug's
                                     # test client cookie jar usage:
                                     # https://github.com/pallets/werkzeug/issues/1060
-        return super(cls, JSONCookie).unserialize(string, secret_key)
+        try:
+            return super(cls, JSONCookie).unserialize(string, secret_key)
+        except (ValueError, UnicodeError, TypeError):
+            # a value the client made up (bad base64 in the signature,
+            # non-ASCII keys, ...) is just an invalid cookie, not an error
+            return cls((), secret_key, False)
 
     def set_expires(self, epoch_time=NOW):
         """
